@@ -21,8 +21,13 @@
      - kernel-checked finite facts over Q[i]: spin-1/2 matrices, su(2), XX+YY = (S+S- + S-S+)/2, Fermi-Hubbard site operators as
        Kronecker products, two-site hopping words = products of Jordan-Wigner strings, number operators, charges of every operator;
      - block sparsity of every MPO from_opgraph returns (C06_qsparse, from C05).
-   NOT PROVED (validated on every generated case by the correspondence check: identical graphs, is_consistent, length, linkage evaluated
-   in Coq): that from_opchains SUCCEEDS on these chain lists; the Jordan-Wigner padding lemma for general L (only the two-site
+     - SUCCESS, every L >= 1, all parameters: the shifted chain lists are well formed (C06_shift_chains_wf: every local chain has leading
+       and trailing charge 0 and fits after shifting) as soon as one local chain that fits has a non-zero coefficient ([some_term],
+       C06_some_term_iff); hence with C05 (success, linkage, consistency, length, meaning; proved cover model, no cover hypothesis)
+       C06_xxz_total, C06_xxz1_total, C06_bose_total, C06_fermi_total: the constructor's graph exists, is linked, cannot fail
+       is_consistent, has length L and denotes the textbook formula -- no "returns Ok" hypothesis;
+   NOT PROVED (validated on every generated case by the correspondence check: identical graphs evaluated
+   in Coq): the Jordan-Wigner padding lemma for general L (only the two-site
    products are kernel-checked); entries sqrt 2 / sqrt k of the spin-1 / boson maps are abstract elements (positions and adjoints
    checked with the roots replaced by 1; for spin 1 the adjoint identity is proved for any self-conjugate sq2). *)
 From Coq Require Import ZArith QArith Qcanon List Bool Lia Permutation.
@@ -85,31 +90,31 @@ Print Assumptions C06_some_term_iff.
 Theorem C06_spec_total : forall (R : cring) (sp : hamspec R) L, (1 <= L)%nat ->
   forallb (local_ok R) (h_lop sp) = true -> some_term R (h_lop sp) L = true ->
   exists g, spec_graph cover_model sp L = OkG g /\ linked g = true /\
-    (forall fuel b, is_consistent_fuel fuel g = Some b -> b = true) /\
+    (forall fuel b, is_consistent_fuel fuel g = Some b -> b = true) /\ glength g = Some L /\
     forall w, den g w = local_sum L (h_idn sp) (h_lop sp) w.
 Proof. exact spec_graph_total. Qed.
 Print Assumptions C06_spec_total.
 Theorem C06_xxz_total : forall (R : cring) (half J D h : R) L, (1 <= L)%nat -> some_term R (xxz_lop half J D h) L = true ->
   exists g, spec_graph cover_model (xxz_spec half J D h) L = OkG g /\ linked g = true /\
-    (forall fuel b, is_consistent_fuel fuel g = Some b -> b = true) /\
+    (forall fuel b, is_consistent_fuel fuel g = Some b -> b = true) /\ glength g = Some L /\
     forall w, den g w = xxz_formula half J D h L w.
 Proof. exact xxz_total. Qed.
 Print Assumptions C06_xxz_total.
 Theorem C06_xxz1_total : forall (R : cring) (half sq2 J D h : R) L, (1 <= L)%nat -> some_term R (xxz1_lop half J D h) L = true ->
   exists g, spec_graph cover_model (xxz1_spec half sq2 J D h) L = OkG g /\ linked g = true /\
-    (forall fuel b, is_consistent_fuel fuel g = Some b -> b = true) /\
+    (forall fuel b, is_consistent_fuel fuel g = Some b -> b = true) /\ glength g = Some L /\
     forall w, den g w = xxz_formula half J D h L w.
 Proof. exact xxz1_total. Qed.
 Print Assumptions C06_xxz1_total.
 Theorem C06_bose_total : forall (R : cring) d sq (t U mu : R) L, (1 <= L)%nat -> some_term R (bose_lop t U mu) L = true ->
   exists g, spec_graph cover_model (bose_spec d sq t U mu) L = OkG g /\ linked g = true /\
-    (forall fuel b, is_consistent_fuel fuel g = Some b -> b = true) /\
+    (forall fuel b, is_consistent_fuel fuel g = Some b -> b = true) /\ glength g = Some L /\
     forall w, den g w = bose_formula t U mu L w.
 Proof. exact bose_total. Qed.
 Print Assumptions C06_bose_total.
 Theorem C06_fermi_total : forall (R : cring) (half t U mu : R) L, (1 <= L)%nat -> some_term R (fermi_lop t U mu) L = true ->
   exists g, spec_graph cover_model (fermi_spec half t U mu) L = OkG g /\ linked g = true /\
-    (forall fuel b, is_consistent_fuel fuel g = Some b -> b = true) /\
+    (forall fuel b, is_consistent_fuel fuel g = Some b -> b = true) /\ glength g = Some L /\
     forall w, den g w = fermi_formula t U mu L w.
 Proof. exact fermi_total. Qed.
 Print Assumptions C06_fermi_total.
@@ -251,6 +256,14 @@ Example C06_nonvacuous_xxz :
       linked g2 = true /\ den g2 [-1; 1] = Q2Qc (3 # 2) /\ den g2 [2; 0] = zq (-7)
   | _, _, _ => False
   end.
+Proof. vm_compute. repeat split; reflexivity. Qed.
+(* the hypothesis [some_term] of the _total theorems: met by generic parameters; with J = D = 0 only by the field term (any L);
+   not met by the zero operator (where the constructor raises) *)
+Example C06_nonvacuous_some_term :
+  some_term Qcring (@xxz_lop Qcring hq (zq 3) (zq 5) (zq 7)) 1 = true /\ some_term Qcring (@xxz_lop Qcring hq (zq 0) (zq 0) (zq 7)) 4 = true /\
+  some_term Qcring (@xxz_lop Qcring hq (zq 3) (zq 5) (zq 0)) 1 = false /\ some_term Qcring (@xxz_lop Qcring hq (zq 0) (zq 0) (zq 0)) 4 = false /\
+  some_term Qcring (@fermi_lop Qcring (zq 2) (zq 0) (zq 0)) 2 = true /\ some_term Qcring (@bose_lop Qcring (zq 0) (zq 3) (zq 0)) 1 = true /\
+  some_term Qcring (@xxz1_lop Qcring hq (zq 0) (zq 5) (zq 0)) 2 = true.
 Proof. vm_compute. repeat split; reflexivity. Qed.
 Example C06_nonvacuous_fermi_bose :
   match spec_graph cover_model (@fermi_spec Qcring hq (zq 2) (zq 3) (zq 5)) 3,
